@@ -255,7 +255,7 @@ def main(modname, argv=None):
             counters[k] += v
         if r.get("outcome") == "HARNESS-ERROR":
             inconclusive.append("harness error in case %s: %s" % (r["id"], r.get("error", "")[-400:]))
-        if r.get("nontrivial"):
+        if r.get("nontrivial") and "sigs" not in r:
             sigs.add(json.dumps(r.get("sig"), sort_keys=True, default=_jsonable))
         for sg in r.get("sigs", []):   # a case that bundles several executions reports each signature
             sigs.add(json.dumps(sg, sort_keys=True, default=_jsonable))
